@@ -227,7 +227,7 @@ theorem zipDomainM_length (f : F → F × F → Option F) : ∀ (xs : List F) (d
 end
 
 section
-variable {F : Type} [Add F] [Sub F] [LT F] [DecidableLT F]
+variable {F : Type} [Add F] [Sub F] [Mul F] [Div F] [LT F] [DecidableLT F] [OfNat F 3]
 
 theorem oneTailedSolution_length : ∀ (xs : List F) (ds : List (F × F)) (script : List F) (ys rest : List F),
     oneTailedSolution xs ds script = some (ys, rest) → ys.length = xs.length := by
@@ -331,6 +331,37 @@ theorem zipDomain_all (f : F → F × F → F) (P : F × F → F → Prop) :
       have := zipDomain_all f P xs ds (by simpa using h) (fun x' d' hd' => hf x' d' (by simp [hd'])) k
         (by simpa [zipDomain] using hk) (by simpa using hd)
       simpa [zipDomain] using this
+end
+
+section
+variable {F : Type} [Field F] [LinearOrder F] [IsStrictOrderedRing F]
+
+theorem oneTailedSolution_in_bounds : ∀ (xs : List F) (ds : List (F × F)) (script ys rest : List F),
+    xs.length = ds.length → oneTailedSolution xs ds script = some (ys, rest) →
+    ∀ k (hk : k < ys.length) (hd : k < ds.length), ds[k].1 ≤ ys[k] ∧ ys[k] ≤ ds[k].2
+  | [], [], _, ys, _, _, h => by
+    simp [oneTailedSolution] at h; obtain ⟨rfl, _⟩ := h; simp
+  | [], _ :: _, _, _, _, hl, _ => by simp at hl
+  | _ :: _, [], _, _, _, hl, _ => by simp at hl
+  | x :: xs, d :: ds, script, ys, rest, hl, h => by
+    simp only [oneTailedSolution] at h
+    cases h1 : oneTailedLoop d.1 d.2 script x with
+    | none => simp [h1] at h
+    | some r1 =>
+      obtain ⟨y, s'⟩ := r1
+      simp only [h1] at h
+      cases h2 : oneTailedSolution xs ds s' with
+      | none => simp [h2] at h
+      | some r2 =>
+        obtain ⟨ys', s''⟩ := r2
+        simp only [h2, Option.some.injEq, Prod.mk.injEq] at h
+        obtain ⟨rfl, _⟩ := h
+        have hb := oneTailedLoop_result d.1 d.2 script x y s' h1
+        have ih := oneTailedSolution_in_bounds xs ds s' ys' s'' (by simpa using hl) h2
+        intro k hk hd
+        cases k with
+        | zero => exact ⟨hb.1, hb.2.1⟩
+        | succ k => simpa using ih k (by simpa using hk) (by simpa using hd)
 end
 
 end MahfModel.Boundary
